@@ -15,6 +15,7 @@
 import EV.Proofs.Text
 import EV.Proofs.Serde
 import EV.Proofs.SerdeUtils
+import EV.Proofs.PsetWireTop
 namespace EV.Props.C20
 open EV EV.Text EV.Serde
 
@@ -89,9 +90,32 @@ theorem text_roundtrip_psbt_sighash (n : Nat) (h : n < 2^32) : psbtParse (psbtSh
 theorem base64_roundtrip (bs : Bytes) : b64Dec (b64Enc bs) = .ok bs := b64Dec_b64Enc bs
 
 /-- PSET `to_string` / `from_str`: base64 around the binary codec; it round-trips exactly when the binary
-    codec does on that PSET (that premise is property C07) -/
+    codec does on that PSET (that premise is property C07; discharged in `text_roundtrip_pset_wf` below) -/
 theorem text_roundtrip_pset {α} (ser : α → Bytes) (de : Bytes → Res α) (p : α) (h : de (ser p) = .ok p) :
     psetParse de (psetShow ser p) = .ok p := psetParse_psetShow ser de p h
+
+/-- PSET `to_string` / `from_str`, UNCONDITIONAL (C20 × C07). Composes the text model of this property
+    (`EV.Model.Text`: `psetShow` / `psetParse`, standard base64 around a binary codec) with the binary PSET
+    codec model of property C07 (`EV.Model.PsetSer`: `Pset.serialize` / `Pset.deserialize` on the in-memory
+    `Pset` of `EV.Model.Pset`, dependency validity as the parameter `W : WirePrims`): the premise of
+    `text_roundtrip_pset` is discharged by C07's binary round trip
+    (`EV.Proofs.PsetWireTop.pset_roundtrip`, exported as `EV.Props.C07.pset_roundtrip`), so for every
+    well-formed PSET (C07's class `WfPset`, which is exactly what the decoder produces) parsing its base64
+    text gives back the same PSET.  (`EV.Props.C07.base64_roundtrip` is this statement on the C07 side; C07
+    imports this file, so the corollary here goes through the shared proof module.) -/
+theorem text_roundtrip_pset_wf (W : PsetWire.WirePrims) (p : Pset) (h : EV.Proofs.PsetWireTop.WfPset W p) :
+    psetParse (Pset.deserialize W) (psetShow (Pset.serialize W) p) = .ok p :=
+  text_roundtrip_pset (Pset.serialize W) (Pset.deserialize W) p (EV.Proofs.PsetWireTop.pset_roundtrip W p h)
+
+/-- … and every text `from_str` accepts parses, after `to_string`, to the same PSET again (the decoder's
+    results are well-formed: C07 `dec_wf`) -/
+theorem text_fixpoint_pset (W : PsetWire.WirePrims) (cs : Str) (p : Pset) (h : psetParse (Pset.deserialize W) cs = .ok p) :
+    psetParse (Pset.deserialize W) (psetShow (Pset.serialize W) p) = .ok p := by
+  unfold psetParse at h
+  cases hb : b64Dec cs with
+  | ok b => rw [hb] at h; exact text_roundtrip_pset_wf W p (EV.Proofs.PsetWireTop.pset_dec_wf W b p h)
+  | err e => rw [hb] at h; cases h
+  | panic m => rw [hb] at h; cases h
 
 /- `Script` has `Display` (asm) but no `FromStr`; `confidential::{Value, Asset, Nonce}` have `Display` only. -/
 
